@@ -59,7 +59,7 @@ func genC11(t *rapid.T) C11Case {
 	phases := []string{"idle-new", "idle-after", "partial-head", "at-origin", "at-origin", "mid-response", "mid-response", "tunnel"}
 	if rapid.IntRange(0, 2).Draw(t, "ppstack") == 0 {
 		c.Stack = "pp"
-		phases = append(phases, "pp-pending", "pp-pending", "pp-pending")
+		phases = append(phases, "pp-pending", "pp-pending", "pp-pending", "pp-expired")
 	}
 	n := rapid.IntRange(1, 8).Draw(t, "nconns")
 	for i := 0; i < n; i++ {
@@ -68,6 +68,9 @@ func genC11(t *rapid.T) C11Case {
 		if c.Conns[i].Phase == "at-origin" && rapid.IntRange(0, 2).Draw(t, "upgrade") == 0 {
 			c.Conns[i].Upgrade, c.Conns[i].BodyLen = true, 0
 		}
+	}
+	if c.Stack == "pp" && c.Mode == "forwarder" && rapid.Bool().Draw(t, "ppexpired") {
+		c.Conns[0].Phase, c.Conns[0].Upgrade = "pp-expired", false // the instance keeps count of its connections: more of these here
 	}
 	m := rapid.IntRange(0, 2*n+2).Draw(t, "nacts")
 	for i := 0; i < m; i++ {
@@ -206,12 +209,12 @@ func runC11once(c C11Case) (fails []vstat.Failure) {
 		}
 		cl.conn, cl.br = tc, bufio.NewReaderSize(tc, 128<<10)
 		defer tc.Close()
-		if c.Stack == "pp" && spec.Phase != "pp-pending" {
+		if c.Stack == "pp" && spec.Phase != "pp-pending" && spec.Phase != "pp-expired" {
 			tc.Write([]byte(ppLine))
 		}
 		host := origin.Addr
 		switch spec.Phase {
-		case "idle-new", "pp-pending":
+		case "idle-new", "pp-pending", "pp-expired":
 		case "idle-after":
 			fmt.Fprintf(tc, "GET http://%s/pre HTTP/1.1\r\nHost: %s\r\n\r\n", host, host)
 			tc.SetReadDeadline(time.Now().Add(5 * time.Second))
@@ -279,6 +282,25 @@ func runC11once(c C11Case) (fails []vstat.Failure) {
 			}
 		}
 		tc.SetReadDeadline(time.Time{})
+	}
+	// a peer that never sent its PROXY header is ended by the header timeout before shutdown begins: it was a
+	// connection, it is gone, it counts as neither
+	expired := false
+	for _, cl := range clients {
+		if cl.spec.Phase == "pp-expired" && c.Stack == "pp" {
+			expired = true
+		}
+	}
+	if expired {
+		time.Sleep(c11PPTimeout + 150*time.Millisecond)
+		for i, cl := range clients {
+			if cl.spec.Phase == "pp-expired" {
+				if closed, _, _ := WaitClosed(cl.conn, cl.br, time.Second); !closed {
+					fails = append(fails, vstat.Failf(key("pp-header-timeout"), "connection %d sent no PROXY header for %v (limit %v) and is still open", i, c11PPTimeout+150*time.Millisecond, c11PPTimeout))
+				}
+				cl.gone = true
+			}
+		}
 	}
 	acceptedBefore := 0
 	if accepted != nil {
